@@ -86,3 +86,8 @@ func (pt *PersistentPendingTxs) Load() error {
 	}
 	return json.Unmarshal(data, &pt.list)
 }
+
+// IsEmpty reports whether no transactions are waiting in the queue.
+func (pt *PersistentPendingTxs) IsEmpty() bool {
+	return len(pt.list) == 0
+}
